@@ -61,8 +61,9 @@ PROPS = {
     'C06': dict(level='other', groups=['lib_lower', 'lib_shape', 'pkgtype', 'qual', 'builder', 'purl', 'parse_seg', 'cksum', 'fmt', 'parse'], kani=ESC + ['type_char', 'key_char', 'empty_is_invalid', 'package_type_names'],
         bounded=['nopanic', 'tokens:C06', 'checksum', 'qualmap', 'protocol', 'preds', 'builder'],
         explanation='Deductive: every verified unit carries Verus obligations for arithmetic overflow (the checksum capacity computation included), unwrap, indexing, the three documented panics as preconditions, and termination of its loops; Kani adds its automatic checks on the harnessed code. Functions outside Verus (retain, try_from_iter, Index, IterMut, Entry combinators, Checksum accessors, serde, PackageType::from_str) are covered only BOUNDED: catch_unwind around every call of every domain, overflow checks on, random strings to 1 MiB.'),
-    'C07': dict(level='other', groups=['parse_seg', 'parse'], kani=[], bounded=['segments', 'tokens:C07', 'faults'],
-        explanation="Proved (Verus): decode_subpath / decode_namespace equal sub_fold / ns_fold of the pieces between raw '/'; lemma_c07_subpath / lemma_c07_namespace: splitting the reported text at '/' gives back exactly the decoded non-skipped pieces, none empty, none containing '/', none '.' or '..' (subpath); parse_post routes the text after the last '#' / before the last '/' to them. Assumed: a non-empty piece decodes to a non-empty string (A). BOUNDED cross-check: all spellings from 12 pieces up to 4 / 6 pieces, T_N."),
+    'C07': dict(level='proof', groups=['parse_seg', 'parse'], kani=[], bounded=['segments', 'tokens:C07', 'faults'],
+        explanation="Proved (Verus, all strings, every T): from_str == parse_post routes the text after the last '#' to decode_subpath and the text before the last '/' of the path to decode_namespace; these equal sub_fold / ns_fold of the pieces between raw '/'; lemma_c07_of_phases: for every string the two phases accept, the reported namespace / subpath is the '/'-join of the decoded non-skipped pieces and splitting it at '/' gives exactly those segments back -- none empty, none containing '/', subpath segments not '.' or '..' -- or it is absent; the hooks of the built-in type parameters and the generic tail of build() leave namespace and subpath untouched (frames). Bounded cross-checks on the compiled code accompany the proof.",
+        trusted=['decode(): a single call into the percent-encoding crate; its contract dec (percent-decode + strict UTF-8) and "a non-empty piece decodes to a non-empty string" are assumed (A: bounded replay)', 'std trim_matches / split / rsplit_once / split_once contracts (A: bounded replay)', 'a user-written PurlShape may overwrite namespace / subpath in its hook: the statement is read for the built-in type parameters']),
     'C08': dict(level='other', groups=['lib_lower', 'pkgtype', 'builder', 'parse'], kani=['package_type_names'], bounded=['pkgrules', 'lower', 'tokens:C08'] + A,
         explanation='Proved for all strings and all seven variants (Verus): nuget name = Unicode lower-casing (lower_seq), pypi name = pypi_norm written from the statement, maven refused iff the namespace has no significant segment, every other field untouched (frame), parser and builder both end in build() which applies the hook once. Unicode tables validated exhaustively (A). BOUNDED: unknown-type refusal (phf / unicase lookup), cross-checks on every scalar value.'),
     'C09': dict(level='other', groups=['builder', 'qual', 'pkgtype', 'purl', 'fmt', 'inverse'], kani=ESC, bounded=['builder', 'format:C09', 'preds', 'shapes'] + A,
